@@ -1,6 +1,6 @@
 INIT ScenInit
 NEXT ScenNext
 CONSTANTS
-  K = 600
+  K = 320
 INVARIANT EmitScen
 CHECK_DEADLOCK FALSE
